@@ -86,8 +86,9 @@ def r3(ctx):
               'accumulated test on `%s`' % S(b.call_args(acc)[0]), acc.where(), sample=S(b.call_args(acc)[0]))
     ctx.guard(b, acc, 'after-startup', outs, key='check_offset_steer|accumulated|after-startup')
     cl = one(user_closures(P, b), 'closure of check_offset_steer')
-    cv = [v for _, v in ret_assigns(cl)]
-    ctx.check('check_offset_steer|accumulated|compare', cv == ['(self.timedata.accumulated_steps > v)'], 'accumulated comparison is %s' % cv, sample=cv)
+    cv = [canon_cmp_str(v) for _, v in ret_assigns(cl)]
+    # `accumulated_steps > limit` in either orientation, whatever the closure parameter is called
+    ctx.check('check_offset_steer|accumulated|compare', len(cv) == 1 and re.match(r'^\(\w+ < self\.timedata\.accumulated_steps\)$', cv[0]) is not None, 'accumulated comparison is %s' % cv, sample=cv)
     adds = [s for s in b.calls(r'NtpDuration as core::ops::arith::AddAssign>::add_assign$|AddAssign::add_assign$')
             if S(b.call_args(s)[0]) == 'self.timedata.accumulated_steps']
     ctx.check('check_offset_steer|accumulate', len(adds) == 1 and S(b.call_args(adds[0])[1]) == 'NtpDuration::abs(NtpDuration::from_seconds(change))',
